@@ -5,7 +5,7 @@ from vlib.unit import Unit, Lemma
 
 UNIT = Unit(
     name="pins_bar",
-    properties=["C01", "C03", "C04", "C05", "C06"],
+    properties=["C01", "C03", "C04", "C05", "C06", "C18"],
     prelude=[],
     trusted=["no function is verified in this unit: it only pins source text (specs/stub_baseline.json)"],
     items=[Lemma("pins_present", "()", ensures=[("pinned-api-glue-unchanged", "true")], body="{}", no_canary=True)],
@@ -23,5 +23,7 @@ UNIT.pinned = [(PB, "ProgressBar", n) for n in
     ("src/draw_target.rs", "ProgressDrawTarget", "stdout_with_hz"), ("src/draw_target.rs", "ProgressDrawTarget", "stderr_with_hz"),
     # the forwarding of TermLike to console::Term (the ghost terminal is the contract of TermLike; a real tty is not available here)
     ] + [("src/term_like.rs", "TermLike for Term", n) for n in ["width", "height", "move_cursor_up", "move_cursor_down", "move_cursor_right", "move_cursor_left", "write_line", "write_str", "clear_line", "flush"]] + [
+    # the steady-tick thread: what it does to the bar between ticks (C08 is not applicable, but C18 / C04 / C07 quantify over bars with a ticker)
+    ("src/progress_bar.rs", "TickerControl", "run"), ("src/progress_bar.rs", "Ticker", "new"), ("src/progress_bar.rs", "Ticker", "stop"),
     ("src/draw_target.rs", "std::ops::Deref for DrawStateWrapper", "deref"), ("src/draw_target.rs", "std::ops::DerefMut for DrawStateWrapper", "deref_mut"),
 ]
